@@ -170,7 +170,7 @@ void misc_string_ops(Enumerator &E) {
     // one string operand (+ optional second), variants listed per kind
     struct K { uint16_t kind; const char *name; unsigned nvar; };
     const K ks[] = {{S_SUBSTR, "substr", 8}, {S_TRIM, "trim", 3}, {S_CASE, "case", 2}, {S_TOKENIZE, "tokenize", 1}, {S_TO_BUF, "to_buf", 6},
-                    {S_TO_STD, "to_std", 10}, {S_CODEC, "codec", 4}, {S_FROM_NUM, "from_num", 11}, {S_LITERAL, "literal", 5}, {S_FILL, "fill", 1},
+                    {S_TO_STD, "to_std", 12}, {S_CODEC, "codec", 4}, {S_FROM_NUM, "from_num", 11}, {S_LITERAL, "literal", 5}, {S_FILL, "fill", 1},
                     {S_NEW_DEFAULT, "new_default", 1}, {S_CLEAR, "clear", 1}, {S_HASH, "hash", 1}, {S_READ, "read", 5}};
     for (const K &k : ks)
         for (unsigned var = 0; var < k.nvar; var++)
@@ -251,6 +251,24 @@ void misc_string_ops(Enumerator &E) {
                     E.cell(nm("decode", std::string(b64 ? "base64" : "hex") + (corrupt ? ",corrupted" : ""), std::string("raw=") + L(LC16[ti], 16) + ",dst=" + L(LC16[di], 16)), b, ts);
                 }
         }
+    // stream extraction into an existing string (narrow and wide source) and stream insertion
+    for (int ti = 0; ti < 5; ti++) {
+        for (int di = 0; di < 5; di++)
+            for (unsigned wide = 0; wide < 2; wide++)
+                for (int corrupt = 0; corrupt < 2; corrupt++) {
+                    Builder b; uint32_t d = b.str(LC16[di]);
+                    Op o; o.kind = S_ISTREAM; o.a = d; o.b = SRC + 5; o.c = LC16[ti]; o.d = wide;
+                    if (corrupt) { o.fault = F_CORRUPT; o.fc = 1 | ((LC16[ti] / 2) << 8); }
+                    size_t ts = b.target(o);
+                    E.cell(nm("istream", std::string(wide ? "wide" : "narrow") + (corrupt ? ",corrupted" : ""), std::string("token=") + L(LC16[ti], 16) + ",dst=" + L(LC16[di], 16)), b, ts);
+                }
+        for (unsigned wide = 0; wide < 2; wide++) {
+            Builder b; uint32_t x = b.str(LC16[ti]);
+            Op o; o.kind = S_OSTREAM; o.a = x; o.b = wide;
+            size_t ts = b.target(o);
+            E.cell(nm("ostream", wide ? "wide" : "narrow", std::string("obj=") + L(LC16[ti], 16)), b, ts);
+        }
+    }
     for (int ti = 1; ti < 5; ti++)
         for (int mv = 0; mv < 2; mv++) {
             Builder b; uint32_t v = b.vec(LC16[ti] * 4);
